@@ -96,7 +96,7 @@ def date_templates():
 def uri_templates():
     schemes = ["http", "https", "ftp", "HTTP", "Http", "htp", "mailto", "file", "urn", ""]
     seps = ["://", ":", ":/", "", "//"]
-    hosts = ["example.org", "localhost", "127.0.0.1", "[::1]", "", "a b", "exa_mple", "user@example.org", "user@", "EXAMPLE.org",
+    hosts = ["example.org", "localhost", "127.0.0.1", "[::1]", "", "a b", "exa_mple", "user@example.org", "user:pw@example.org", ":pw@example.org", "user@", "EXAMPLE.org",
              "é.org", "a-.org", "example.org."]
     ports = ["", ":80", ":x", ":99999999", ":65535", ":65536", ":"]
     tails = ["", "/", "/p", "/p/q.txt", "/p q", "/p?q=1", "/p#f", "?q", "#f", "/%zz", "/%20", "/é", "/p?q=1#f"]
@@ -143,6 +143,9 @@ def lists(tier):
         "date_tpl": date_templates(),
         "uri_tpl": uri_templates(),
     }
+    d["time_small"] = [x for x in d["time_tpl"] if x.count(":") <= 2 and len(x) <= 11][:1500]
+    d["date_small"] = d["date_tpl"][:1200]
+    d["uri_small"] = [x for x in d["uri_tpl"] if "example.org" in x and "?" not in x][:2500]
     _LISTS[tier] = d
     return d
 
@@ -151,16 +154,21 @@ NUMERIC = {"intContent", "floatContent", "floatContent_Nonnegative", "floatRange
 
 
 def lists_for(content_rules, enum, full):
-    """names of the string lists a rule is exercised with"""
-    names = ["generic", "num_boundary", "time_tpl", "date_tpl"]
+    """names of the string lists a rule is exercised with: the full enumeration of its own typed kind, the numeric boundary
+    words, and a fixed reduced product of the other kinds' templates (for an untyped rule these are just strings)"""
     cr = set(content_rules)
+    names = ["generic", "num_boundary"]
     if cr & NUMERIC:
         names.append("num_all")
     if "timeContent" in cr:
-        names.append("time_all")
+        names += ["time_all", "time_tpl"]
+    else:
+        names.append("time_small")
     if "yearDateContent" in cr:
-        names.append("date_all")
-    names.append("uri_tpl")
+        names += ["date_all", "date_tpl"]
+    else:
+        names.append("date_small")
+    names.append("uri_tpl" if "uriContent" in cr else "uri_small")
     return names
 
 
